@@ -406,6 +406,9 @@ void SimpleString::replace(const char* to, const char* with)
     size_t len = size();
     size_t tolen = StrLen(to);
     size_t withlen = StrLen(with);
+    if (tolen == 0) {
+        return;
+    }
 
     size_t newsize = len + (withlen * c) - (tolen * c) + 1;
 
